@@ -27,7 +27,7 @@ LEVEL_NOTE = ('Cell values are exactly representable doubles chosen to be unique
 RULE = ("cases: configurations (kind, shape, order supplied, unit, optional parts); executions: write + reads in both orders (+ memmap variants, + get_sed per model), one evaluation per "
         "cell-array comparison; non-trivial = distinct configurations with >= 2 wavelengths whose supplied order or read order requires a reversal, or with an optional part absent")
 ASSUMPTIONS = ["values are finite and positive", "astropy.io.fits round-trips float64 arrays exactly"]
-REQUIRED_CLASSES = ['zero-flux-cell', 'names-differing-only-in-case', 'model-names-of-40-characters', 'read-arguments-by-position', 'single-precision-values-handed-over', 'sed', 'cube', 'convolved', 'supplied-wav-ascending', 'supplied-wav-descending', 'read-order-nu', 'read-order-wav', 'no-apertures', 'no-uncertainties',
+REQUIRED_CLASSES = ['other-family-values-checked', 'zero-flux-cell', 'names-differing-only-in-case', 'model-names-of-40-characters', 'read-arguments-by-position', 'single-precision-values-handed-over', 'sed', 'cube', 'convolved', 'supplied-wav-ascending', 'supplied-wav-descending', 'read-order-nu', 'read-order-wav', 'no-apertures', 'no-uncertainties',
                     'memmap-on', 'memmap-off', 'get_sed', 'unit-erg/cm2/s', 'unit-erg/s', 'unit-Jy', 'writer-vs-fits', 'fits-vs-reader', 'written-twice', 'other-family-unit-both-orders', 'cube-nu-consistent', 'earlier-extracted-seds-rechecked', 'file-overwritten-then-read']
 TIMEOUT = {'quick': 300, 'thorough': 1800}
 
@@ -283,6 +283,19 @@ def _sed(ctx, case, rec, d, key):
         return
     if not (_close(ra.flux.value, rb.flux.value[:, ::-1]) and _close(ra.error.value, rb.error.value[:, ::-1]) and _close(ra.nu.value, rb.nu.value[::-1])):
         _viol(rec, 'sed-read|orders-not-mirror-images|converted-unit', case, {'nu_order_flux': ra.flux.value[0], 'wav_order_flux_reversed': rb.flux.value[0][::-1]})
+    # ... and the converted values are those of the stored cells (F = nu F_nu, L = F d^2 with the SED's own distance of 2.5 kpc)
+    from ref import unitref
+    other_key = 'erg / (cm2 s)' if uq.is_equivalent(u.Jy) else 'mJy'
+    raw = ra.wav.to(u.micron).value
+    okc = True
+    for j in range(n_wav):
+        kk = int(np.argmin(np.abs(wav - raw[j])))
+        want = unitref.convert(pkgwriter.C_M_S / (wav[kk] * 1e-6), cells[:, kk], unit, other_key, 2.5 * pkgwriter.KPC_CM)
+        got_j = ra.flux.value[:, j]
+        okc = okc and np.allclose(got_j, want, rtol=1e-9, atol=0)
+    rec.cls('other-family-values-checked')
+    if not okc:
+        _viol(rec, 'sed-read|converted-values', case, {'problem': 'values read in %s are not the stored %s values converted with the SED\'s frequencies and distance' % (other_key, unit), 'got_first_aperture': ra.flux.value[0][:4]})
     a, b = reads['nu'], reads['wav']
     if not (_close(a.wav.value, b.wav.value[::-1]) and _close(a.nu.value, b.nu.value[::-1]) and _close(a.flux.value, b.flux.value[:, ::-1]) and _close(a.error.value, b.error.value[:, ::-1])):
         _viol(rec, 'sed-read|orders-not-mirror-images', case, {'nu_order_wav': a.wav.value, 'wav_order_wav': b.wav.value})
